@@ -183,6 +183,16 @@ func CallMethod(obj interface{}, methodName string, args ...interface{}) (interf
 	// so both are settled here: null becomes the parameter's zero value where
 	// the parameter is a plain value (any, object, array), and anything else
 	// that does not fit is an error.
+	// An array or object that contains itself (`$ o.a = o`) cannot be stored,
+	// encoded or printed by a provider: those walk the value and never finish
+	// (fmt recurses until the goroutine stack overflows, which ends the whole
+	// process). Refuse it here, as toString() and join() do.
+	for i, arg := range args {
+		if containsItself(arg, map[uintptr]bool{}) {
+			return nil, fmt.Errorf("method %s: argument %d contains itself", methodName, i+1)
+		}
+	}
+
 	methodArgs := make([]reflect.Value, len(args))
 	for i, arg := range args {
 		paramType := methodParamType(methodType, i)
